@@ -317,6 +317,9 @@ pub fn run(args: &[String]) -> ! {
             let want = entitled(&list, t);
             let gnames: Vec<&str> = t.groups.iter().map(|g| g.name.as_str()).collect();
             let case = json!({"part": "provider", "list_mask": mask, "allowed": list, "user_groups": gnames, "valid": t.valid});
+            if evals % 211 == 1 && ctx.samples_len() < 4 {
+                ctx.sample(json!({"allowed_login_groups": list, "user_groups": gnames, "valid": t.valid, "answer": c.to_string()}));
+            }
             match c {
                 'T' => {
                     admitted += 1;
@@ -452,6 +455,9 @@ pub fn run(args: &[String]) -> ! {
             ctx.machinery_error(format!("sequence {:?}: {r}", seqs[i].iter().map(sop_str).collect::<Vec<_>>()));
             continue;
         };
+        if i % (seqs.len() / 3).max(1) == 1 {
+            ctx.sample(json!({"events": seqs[i].iter().map(sop_str).collect::<Vec<_>>(), "answers (s = server event, T admitted, F refused, N unknown)": labels}));
+        }
         for c in labels.chars() {
             steps_c += 1;
             *answers.entry(c).or_default() += 1;
@@ -483,7 +489,6 @@ pub fn run(args: &[String]) -> ! {
     ctx.set("distinct_nontrivial", admitted + admitted_b + admitted_c);
     ctx.set("provider_cases", evals);
     ctx.set("resolver_cases", evals_b);
-    ctx.set("admitted", admitted + admitted_b);
     ctx.set("admitted_by_resolver_path", json!({MODES[0]: by_mode[0], MODES[1]: by_mode[1], MODES[2]: by_mode[2], MODES[3]: by_mode[3]}));
     ctx.set("entitled_but_refused", refused_though_entitled);
     ctx.set("mismatches", bad);
